@@ -2,6 +2,7 @@
 //! `--cfg simple_dns_verif`; nothing here changes the behaviour of the library.
 #![allow(missing_docs)]
 
+pub use crate::resource_record_manager::verif_cached_offsets as cached_offsets;
 pub use crate::resource_record_manager::verif_expiration_offsets as expiration_offsets;
 pub use crate::resource_record_manager::{DomainResourceFilter, ResourceRecordManager};
 use crate::InstanceInformation;
